@@ -240,12 +240,64 @@ fn fix_ep(x: &mut Pos) {
     }
 }
 
+/// Dense small-material families for the global map: on a few K v K bases, every placement of
+/// two further men (any of the ten piece-colours on any free square, pawns off the back ranks),
+/// both sides to move.  Two positions of such a family differ in up to four (piece, square) keys,
+/// so key tables whose entries alias each other pairwise (k1 ^ k2 == k3 ^ k4) collide here even
+/// when every single-component sibling still differs.
+fn dense_pairs(cfg: &Cfg, shard: usize, ctx: &mut Ctx) -> Result<(), Violation> {
+    let bases: &[(&str, &str)] = match cfg.tier {
+        engine::Tier::Quick => &[("c6", "e4"), ("h8", "a1"), ("e8", "e1"), ("b7", "g2")],
+        _ => &[("c6", "e4"), ("h8", "a1"), ("e8", "e1"), ("b7", "g2"), ("h1", "d4"), ("a3", "h5"), ("g8", "g1"), ("d5", "f2"), ("a8", "c7"), ("f6", "h6")],
+    };
+    let men: Vec<(Col, Kind)> = [Col::W, Col::B].into_iter().flat_map(|c| [Kind::P, Kind::N, Kind::B, Kind::R, Kind::Q].into_iter().map(move |k| (c, k))).collect();
+    for (bk, wk) in bases {
+        let (bk, wk) = (parse_sq(bk).unwrap(), parse_sq(wk).unwrap());
+        let slots: Vec<(Sq, (Col, Kind))> = (0..64u8)
+            .filter(|&q| q != bk && q != wk)
+            .flat_map(|q| men.iter().map(move |m| (q, *m)))
+            .filter(|(q, (_, k))| *k != Kind::P || (rank_of(*q) != 0 && rank_of(*q) != 7))
+            .collect();
+        for (i, (q1, m1)) in slots.iter().enumerate() {
+            if i % cfg.shards != shard {
+                continue;
+            }
+            for (q2, m2) in slots[i + 1..].iter() {
+                if q1 == q2 {
+                    continue;
+                }
+                for stm in [Col::W, Col::B] {
+                    let mut p = Pos::empty();
+                    p.board[wk as usize] = Some((Col::W, Kind::K));
+                    p.board[bk as usize] = Some((Col::B, Kind::K));
+                    p.board[*q1 as usize] = Some(*m1);
+                    p.board[*q2 as usize] = Some(*m2);
+                    p.stm = stm;
+                    match bridge::board_via_builder(&p) {
+                        Ok(b) => {
+                            ctx.evals_add(1);
+                            ctx.count("dense_family_positions", 1);
+                            note(ctx, b.get_hash(), &p);
+                        }
+                        Err(_) => ctx.count("dense_family_rejected_by_library", 1),
+                    }
+                }
+            }
+        }
+    }
+    ctx.class("family:two-further-men-on-KvK-bases");
+    Ok(())
+}
+
+fn explore(cfg: &Cfg, shard: usize, ctx: &mut Ctx, seed: u64) -> Result<(), Violation> {
+    common::golden(cfg, shard, ctx, &check_step)?;
+    dense_pairs(cfg, shard, ctx)?;
+    common::histories(ctx, seed, cfg.per_shard(120_000, 800_000), 6, 48, None, &check_step)?;
+    Ok(())
+}
+
 pub fn run(cfg: &Cfg) -> i32 {
-    let mut report = engine::run_shards(cfg, |shard, ctx, seedf| {
-        common::golden(cfg, shard, ctx, &check_step)?;
-        common::histories(ctx, seedf(1), cfg.per_shard(120_000, 800_000), 6, 48, None, &check_step)?;
-        Ok(())
-    });
+    let mut report = engine::run_shards(cfg, |shard, ctx, seedf| explore(cfg, shard, ctx, seedf(1)));
     // global collision map over every distinct position met by any shard
     let mut all: Vec<(u64, u64)> = vec![];
     for c in report.ctxs.iter_mut() {
@@ -272,9 +324,7 @@ pub fn run(cfg: &Cfg) -> i32 {
         let _ = WATCH.set(watch);
         let _ = engine::run_shards(cfg, |shard, ctx, seedf| {
             ctx.frozen = true;
-            common::golden(cfg, shard, ctx, &check_step)?;
-            common::histories(ctx, seedf(1), cfg.per_shard(120_000, 800_000), 6, 48, None, &check_step)?;
-            Ok(())
+            explore(cfg, shard, ctx, seedf(1))
         });
         let mut found = FOUND.lock().unwrap().clone();
         found.sort();
@@ -308,7 +358,7 @@ pub fn run(cfg: &Cfg) -> i32 {
     engine::finish(
         report,
         EvidenceSpec {
-            rule: "cases = every position on golden and generated histories goes into a global map hash -> position identity; one position in four additionally gets all its single-component siblings built through BoardBuilder: each non-king man removed / retyped / recoloured / moved to two empty squares, side to move flipped (also via null_move), every proper subset of the castling rights held, en-passant state absent vs present on each possible file. evaluations = positions + siblings compared. Non-trivial = a sibling differing in castling rights, en-passant file or side to move, or a global map of >= 100000 distinct positions; distinct = fingerprints of (position, sibling).".into(),
+            rule: "cases = every position on golden and generated histories, and every placement of two further men on a few K v K bases (dense families in which positions differ pairwise in up to four piece-square keys), goes into a global map hash -> position identity; one position in four additionally gets all its single-component siblings built through BoardBuilder: each non-king man removed / retyped / recoloured / moved to two empty squares, side to move flipped (also via null_move), every proper subset of the castling rights held, en-passant state absent vs present on each possible file. evaluations = positions + siblings compared. Non-trivial = a sibling differing in castling rights, en-passant file or side to move, or a global map of >= 100000 distinct positions; distinct = fingerprints of (position, sibling).".into(),
             assumptions: vec![
                 "the global map holds at most 6.4e7 distinct positions, so the expected number of chance collisions is N^2/2^65 <= 1.1e-4; any collision is reported (false-alarm probability per run about 1e-4)".into(),
                 "says nothing about adversarially constructed collisions".into(),
